@@ -99,13 +99,13 @@ def _validate_batch(args):
             json.dump({"traces": batch}, fh)
         env = {"TRACE_FILE": f}
         env.update(extra_env or {})
-        r = tlc.run_tlc(module, cfg, workers=workers, env=env, timeout=7200)
+        r = tlc.run_tlc(module, cfg, workers=workers, env=env, timeout=7200, heap_gb=3)
         return r.printed, r.generated, r.distinct, r.wall
     finally:
         shutil.rmtree(d, ignore_errors=True)
 
 
-def validate_traces(module, cfg, traces, batch_lines=20000, jvms=8, workers_per_jvm=2, extra_env=None):
+def validate_traces(module, cfg, traces, batch_lines=20000, jvms=6, workers_per_jvm=3, extra_env=None):
     """Validate traces with the Trace_X specification.  Returns (verdicts, stats).
 
     verdicts: {tid: {"lines": n, "bad": k, "rejects": [(line, clause)...]}} ; a trace without a DONE verdict is a
